@@ -52,6 +52,7 @@ fn main() {
                 "c02" => c02::run(&args, &mut out),
                 "c07" => c07::run(&args, &mut out),
                 "c13" => c13::run(&args, &mut out),
+                "c13-repro" => c13::repro(&args, &mut out),
                 s => { eprintln!("unknown stream {s}"); std::process::exit(2); }
             }
             out.write(&args.out);
